@@ -782,6 +782,10 @@ impl Disk {
             if terminus || null_terminus {
                 return Ok((parent_info,curr));
             }
+            if !curr.directory {
+                debug!("{} is not a directory",curr.name);
+                return Err(Box::new(Error::FileNotFound));
+            }
             let new_dir = self.get_directory(&curr.cluster1)?;
             files = new_dir.build_files(self.typ)?;
             parent_info = Some(curr);
@@ -831,6 +835,10 @@ impl Disk {
         }
         debug!("write {} to {}",new_name,parent_path);
         if let Ok((_maybe_grandparent,parent)) = self.goto_path(&parent_path) {
+            if !parent.directory && !parent.is_root {
+                error!("{} is not a directory",parent_path);
+                return Err(Box::new(Error::FileNotFound));
+            }
             let mut search_dir = self.get_directory(&parent.cluster1)?;
             let files = search_dir.build_files(self.typ)?;
             return match directory::get_file(&new_name, &files) {
